@@ -70,6 +70,30 @@ def run(ctx):
                    sample={"frames": [(f[0], f[1], len(f[2])) for f in frames][:8], "control": control})
             judge(T, frames, stream, control, line, s, pub)
             runs.append((sc, line))
+    # pings that arrive after the client's own send_close() and before the server's close frame are answered like any other
+    for i in range(20 if ctx.tier == "quick" else 300):
+        pings = [lcg_bytes(rng.choice([0, 1, 7, 125]), rng.randrange(1000)) for _ in range(rng.randrange(1, 4))]
+        frames = []
+        for p_ in pings:
+            if rng.random() < 0.5:
+                frames.append((2, 1, b"data"))
+            frames.append((9, 1, p_))
+        frames.append((8, 1, b"\x03\xe8"))
+        stream = encode_frames(frames)
+        control = i % 2
+        sc = {"fire": 0, "skip": 0, "script": [["D", stream.hex()]], "keys": KEYS, "ops": ["sc:1000:-"] + ["rd1" if control else "rd0"] * (len(frames) + 1)}
+        line, s_ = wsrun.run_impl(sc)
+        T.case(("after-own-close", stream[:48], control), nontrivial=True, bucket="after-own-close", sample={"frames": [(f[0], len(f[2])) for f in frames], "line": line[:120]})
+        io = line.split(";io=")[1].split(",")
+        writes = [x for x in io if x.startswith("w")]
+        from corr.recvprops import close_wire
+        want = ["w" + digest(close_wire(1000, b"", KEYS[0]))] + ["w" + digest(pong_wire(p_, KEYS[j + 1])) for j, p_ in enumerate(pings)]
+        if writes != want:
+            T.fail("spec", {"kind": "after-own-close", "stream": stream.hex(), "control": control, "ops": sc["ops"]}, f"close frame then {len(pings)} pongs", f"{len(writes)} writes: {line[:200]}",
+                   {"site": "recv_data_frame", "cls": "pong-count-or-content", "after_own_close": True},
+                   what="a ping received after the client's own close frame (and before the server's) was not answered with its pong")
+            break
+        runs.append((sc, line))
     if ctx.model:
         outs = ctx.model.run_parallel([wsrun.scenario_line(sc) for sc, _ in runs])
         for (sc, line), o in zip(runs, outs):
@@ -93,6 +117,11 @@ def search(ctx):
 
 def replay(ctx, sc):
     stream = bytes.fromhex(sc["stream"])
+    if sc.get("kind") == "after-own-close":
+        line, s_ = wsrun.run_impl({"fire": 0, "skip": 0, "script": [["D", stream.hex()]], "keys": KEYS, "ops": sc["ops"]})
+        sp = parse_specseq(ctx.spec.run(["specseq 1 " + hx(stream)])[0])
+        writes = [x for x in line.split(";io=")[1].split(",") if x.startswith("w")]
+        return None if len(writes) == 1 + len(sp["pongs"]) else {"pongs_owed": len(sp["pongs"]), "writes": len(writes) - 1, "line": line[:200]}
     sp = parse_specseq(ctx.spec.run(["specseq 1 " + hx(stream)])[0])
     frames = []
     for fr in sp["frames"]:
